@@ -5,7 +5,9 @@ from common import (Rng, assumptions, coq_eval, coq_make, harness_build, hygiene
                     run_harness, seed, write_evidence, write_replay, TRUSTED_BASE)
 
 PROP = "C16"
-THEOREMS = ["C16_model_smoke"]
+THEOREMS = ["C16_model_smoke", "C16_invariant_all_histories", "C16_own_reply", "C16_no_cross", "C16_duplicates_ignored", "C16_late_ignored",
+            "C16_resolved_final", "C16_window_bound", "C16_written_means_registered", "C16_no_hang", "C16_capacity", "C16_leak_refuted",
+            "C16_ids_distinct", "C16_ids_nonzero", "C16_ping"]
 PRELUDE = "From NW Require Import Base.Bytes Model.ClientEngine Conf.CodecConf Conf.ClientConf.\n"
 RELEASES = "true"     # does the implementation release the table entry/permit on timeout? (model parameter, see Props/C16.v)
 
